@@ -660,7 +660,7 @@ func (s *Spec) Walk(ctx context.Context, st *State, pendings []interface{}, c *C
 			if st.NodeName == "error" {
 				// We're already at an error.
 			} else {
-				errorBs, _ := st.Bs.Extendm("error", err.Error(),
+				errorBs, _ := st.Bs.Copy().Extendm("error", err.Error(),
 					"lastNode", st.NodeName,
 					"lastBindings", st.Bs.Copy())
 				stride.To = &State{
